@@ -601,3 +601,16 @@ class EvalGen(Gen):
             else:
                 out.append([0, e])
         return out
+
+
+def canon_tmps(x, table=None):
+    """rename the temporaries' numbers by order of first occurrence: two rewritings that differ only by an injective
+    renumbering of __TMP<n> behave the same, so the comparison of rewritten trees is made modulo that"""
+    table = table if table is not None else {}
+    if isinstance(x, list):
+        if len(x) == 3 and x[0] == 1 and isinstance(x[1], int) and isinstance(x[2], list) and x[2] and x[2][0] in (0, 1, 2) \
+                and (len(x[2]) == 1 or isinstance(x[2][1], int)) and len(x[2]) <= 2:
+            n = table.setdefault(x[1], len(table))
+            return [1, n, x[2]]
+        return [canon_tmps(y, table) for y in x]
+    return x
